@@ -5,7 +5,7 @@ PROPERTY = 'C04'
 LEVEL = 'other'
 ASSUMPTIONS = [
     'program family: the fixed core of %d error-free skeletons in harness/oalprogs.py covering every construct of the statement (nested loops with break/continue, if/elif/else, while with symbolic bounds, create/delete in loops, relate/unrelate incl. using, select any/many/one from instances and along 1-2-step chains with and without where, cardinality/empty/not_empty, control stop, all return forms)' % len(oalprogs.PROGRAMS),
-    'generated family: 10 (thorough 200) seeded random programs per run from harness/oalrand.py (assignments, if/elif/else, bounded while with break/continue, for each with where, create/relate, guarded select any), nesting depth <= 3',
+    'generated family: 8 (thorough 200) seeded random programs per run from harness/oalrand.py (assignments, if/elif/else, bounded while with break/continue, for each with where, create/relate, guarded select any), nesting depth <= 3',
     'initial population: 2 A and 2 B instances with symbolic unbounded integer / boolean attribute values, every R1 link state (9); parameters p1, p2 unbounded ints, pb boolean, pn in 0..3',
     'integer "/" and "%" on negative operands are left out (the statement does not settle their semantics); the instance-set operators | & ^ are not in the statement; reals and strings only as literals',
     'the body text is parsed by the real parser outside the tracer; execution (FunctionWalker.accept) is traced',
@@ -22,9 +22,9 @@ def conditions(tier, seed):
                         symbolic=['a0', 'a1', 'ab0', 'ab1', 'v0', 'v1', 'p1', 'p2', 'pb', 'pn (0..3)'],
                         case_split=['ls (initial R1 links)']))
     # generated family: seeded, type-correct, error-free programs (harness/oalrand.py), depth <= 3
-    ngen = 10 if tier == 'quick' else 200
+    ngen = 8 if tier == 'quick' else 200
     for k in range(ngen):
-        out.append(Cond('prog_gen_%d_%d' % (seed, k), 'c04_interp.py', dict(prog='gen_%d_%d' % (seed, k)), timeout=t,
+        out.append(Cond('prog_gen_%d_%d' % (seed, k), 'c04_interp.py', dict(prog='gen_%d_%d' % (seed, k)), timeout=(240 if tier == 'quick' else t),
                         bound='generated program %d of seed %d: all parameter and attribute values, 9 initial link states' % (k, seed),
                         symbolic=['a0', 'a1', 'ab0', 'ab1', 'v0', 'v1', 'p1', 'p2', 'pb', 'pn'], case_split=['ls'], twin=(k < 2)))
     return out
